@@ -52,6 +52,32 @@ Al.lattice_constant : 4.05
 Al.lattice_type : bcc
 Xx.lattice_type : hcp
 """),
+  # labels that decorate an element symbol (phases, charge states): not in the element table, metadata from [Species] or the defaults
+  "eam_decorated": dict(text=_TAB + """[EAM-Embed]
+Fe_a : as.polynomial 0.0 -1.0
+Ni2 : as.sqrt -3.0
+U4+ : as.polynomial 0.5 0.25
+
+[EAM-Density]
+Fe_a : as.bornmayer 2.0 0.75
+Ni2 : as.constant 0.5
+U4+ : as.polynomial 0.0 1.0
+
+[Pair]
+Fe_a-Ni2 : as.bornmayer 100.0 0.25
+U4+-U4+ : as.polynomial 1.0 -0.5
+
+[Species]
+Fe_a.atomic_number : 26
+Fe_a.atomic_mass : 55.25
+Fe_a.lattice_constant : 2.875
+Fe_a.lattice_type : bcc
+Ni2.atomic_number : 28
+Ni2.atomic_mass : 58.5
+U4+.atomic_number : 92
+U4+.atomic_mass : 238.25
+U4+.lattice_type : hcp
+"""),
   "eam_species2": dict(text=_TAB + """[EAM-Embed]
 Cu : as.polynomial 0.0 -1.0
 Al : as.sqrt -3.0
